@@ -100,6 +100,33 @@ Theorem C17_copyright_roundtrip_observed :
                 (hv :: map expected_view (expected_order ps)) t.
 Proof. exact run_doc_identity. Qed.
 
+(** 6b. Survival on the wider domain [wf_copyright_weak]: as [wf_copyright], except that
+        the lines of a license text may be whitespace-only or a lone '.' (which the ' .'
+        encoding cannot carry: they read back as empty lines).  The document is still built,
+        its dump is still read back — strict or lax, every input form — as the very same
+        header and paragraphs (so every property reads the same before and after and the
+        second dump is identical), Files paragraphs first, License paragraphs after. *)
+Theorem C17_copyright_survives :
+  forall hops ps form strict,
+    wf_copyright_weak hops ps = true ->
+    exists c1,
+      build_doc (map hop_of_shop hops) (map pspec_of_spara ps) = Ok c1
+      /\ copyright_parse strict (input_of_text form (cdump c1)) = Ok c1
+      /\ map is_files (cd_paras c1) = map is_pfiles (expected_order ps).
+Proof. exact copyright_survives. Qed.
+
+Theorem C17_copyright_survives_observed :
+  forall hops ps form strict,
+    wf_copyright_weak hops ps = true ->
+    exists t v,
+      run_doc (map hop_of_shop hops) (map pspec_of_spara ps) form strict = RDone t v v t
+      /\ map pv_files (tl v) = map is_pfiles (expected_order ps).
+Proof. exact run_doc_same. Qed.
+
+Theorem C17_exact_domain_inside_wider :
+  forall hops ps, wf_copyright hops ps = true -> wf_copyright_weak hops ps = true.
+Proof. exact wf_copyright_weaken. Qed.
+
 (** 7. The deb822 layer enters 5 and 6 through one fact only, proved from C02's theorems
        (Copyright/DocRoundtrip.v): paragraphs that are valid for C02, have trimmed first
        lines and are non-empty, dumped and separated by one empty line, are read back
@@ -113,7 +140,7 @@ Proof. exact reader_ok. Qed.
 (** ... and what every stored value looks like: the encoders produce values C02 calls
     valid, with a trimmed first line (the lemma "encoders produce valid_para values"). *)
 Theorem C17_license_value_valid :
-  forall syn text, license_ok syn text = true ->
+  forall syn text, license_ok_weak syn text = true ->
     valid_value (lic_to_str (mkLic syn (otext text))) = true
     /\ trimmed (lic_to_str (mkLic syn (otext text))) = true.
 Proof. exact license_value. Qed.
@@ -180,6 +207,19 @@ Example C17_document_nonvacuous :
            && str_eqb t (dec "Format: https://example.org/format\00000aUpstream-Contact:\00000a J\0000f6rg <j@x.org>\00000a A B <a@b.c>\00000aX-Note: first\00000a second\00000a \000009third\00000aLicense: GPL-2+\00000a\00000aFiles: *\00000aCopyright: 2014 Foo <foo@example.org>\00000a 2015 Bar\00000a\0000092016 Tab\00000aLicense: GPL-2+\00000a\00000aFiles: debian/* src/\0000e9?.c\00000aCopyright:\00000aLicense: MIT\00000aComment: c\00000a .\00000a\00000aLicense: MIT\00000a Permission is hereby granted\00000a .\00000a   indented\00000a ..\00000aComment: a comment\00000a\00000aLicense:\00000a .\00000a only text\00000a")
        | _ => false
        end) [0; 2; 3; 4]%N = true
+  (* in the wider domain only: a whitespace-only and a lone-'.' license line read back empty,
+     the document survives *)
+  /\ (let ps := [PLicense (SLic (dec "G") (Some (dec "a\00000a  \00000a.\00000ab"))) SNone] in
+      wf_copyright [] ps = false /\ wf_copyright_weak [] ps = true
+      /\ match run_doc [] (map pspec_of_spara ps) 0 true with
+         | RDone t v1 v2 t2 =>
+             str_eqb t t2
+             && match v1 with
+                | [_; mkView false [Ok (VLic l); _]] => str_eqb (lic_text l) (dec "a\00000a\00000a\00000ab")
+                | _ => false
+                end
+         | _ => false
+         end = true)
   (* outside the domain: a Format URL that Header() repairs changes the second dump *)
   /\ match run_doc [HSet 0 (BStr (dec "http://www.debian.org/doc/packaging-manuals/copyright-format/1.0"))] [] 0 true with
      | RDone t _ _ t2 => negb (str_eqb t t2)
@@ -196,6 +236,9 @@ Print Assumptions C17_space_separated_inverse.
 Print Assumptions C17_line_based_inverse.
 Print Assumptions C17_copyright_roundtrip.
 Print Assumptions C17_copyright_roundtrip_observed.
+Print Assumptions C17_copyright_survives.
+Print Assumptions C17_copyright_survives_observed.
+Print Assumptions C17_exact_domain_inside_wider.
 Print Assumptions C17_reader_roundtrip.
 Print Assumptions C17_license_value_valid.
 Print Assumptions C17_files_value_valid.
